@@ -100,4 +100,109 @@ theorem compileHessian_path (e : Expr) (V : List Var) (c : HessClo) (h : compile
     · cases h; rfl
     · cases h
 
+/-- what `compile_jacobian` tests on its argument list -/
+def kindOfList : List Expr → String
+  | [e] => kindOf e
+  | _ => "other"
+
+/-- "scaled-variable pattern" as the source consults it (only for a single row) -/
+def scaledOf (es : List Expr) (V : List Var) : Bool :=
+  match computeJacobian es V with
+  | [row] => (scaledPattern row V).isSome
+  | _ => false
+
+/-- everything of `compile_jacobian` after "fast path 0" -/
+def generalBranch (es : List Expr) (V : List Var) : Except JErr JacClo :=
+  let J := computeJacobian es V
+  match allConst J with
+  | some M => .ok (.constant M)
+  | none =>
+    let pat : Option Cst :=
+      match J with
+      | [row] => scaledPattern row V
+      | _ => none
+    match pat with
+    | some c => .ok (.scaled c)
+    | none => if J.all (fun r => r.all (namesOK V)) then .ok (.general V J) else .error .keyError
+
+theorem length_computeJacobian (es : List Expr) (V : List Var) : (computeJacobian es V).length = es.length := by
+  simp [computeJacobian]
+
+theorem generalBranch_name (es : List Expr) (V : List Var) (c : JacClo) (h : generalBranch es V = .ok c) :
+    c.name = (if (allConst (computeJacobian es V)).isSome = true then "constant_jacobian_fn"
+              else if (es.length == 1) = true then
+                (if scaledOf es V = true then "scaled_variable_jacobian_fn" else "jacobian_fn")
+              else "jacobian_fn") := by
+  unfold generalBranch at h
+  simp only at h
+  cases ha : allConst (computeJacobian es V) with
+  | some M => simp [ha] at h ⊢; cases h; rfl
+  | none =>
+    simp only [ha] at h
+    simp only [Option.isSome_none, Bool.false_eq_true, if_false]
+    have hlen := length_computeJacobian es V
+    unfold scaledOf
+    cases hJ : computeJacobian es V with
+    | nil =>
+      rw [hJ] at hlen
+      simp only [hJ] at h
+      have h0 : es.length = 0 := by simpa using hlen.symm
+      simp [h0]
+      split at h <;> cases h <;> rfl
+    | cons row t =>
+      cases t with
+      | nil =>
+        rw [hJ] at hlen
+        have h1 : es.length = 1 := by simpa using hlen.symm
+        simp only [hJ] at h
+        cases hs : scaledPattern row V with
+        | some cc => simp [hs] at h; cases h; simp [h1, JacClo.name, hs]
+        | none =>
+          simp [hs] at h
+          simp [h1, hs]
+          split at h <;> cases h <;> rfl
+      | cons r2 t2 =>
+        rw [hJ] at hlen
+        have h2 : ¬ es.length = 1 := by
+          simp at hlen; omega
+        simp only [hJ] at h
+        simp [h2]
+        split at h <;> cases h <;> rfl
+
+/-- `compile_jacobian`: the two vectorised single-row paths, the constant path, the scaled-variable path, the general path -/
+theorem compileJacobian_path (es : List Expr) (V : List Var) (c : JacClo) (h : compileJacobian es V = .ok c)
+    (k : Rat) (op : String) (f : Bool) :
+    c.name = compileJacobianPathG (kindOfList es) k op f es.length
+      (allConst (computeJacobian es V)).isSome (scaledOf es V) := by
+  unfold compileJacobianPathG
+  have other : kindOfList es = "other" → compileJacobian es V = generalBranch es V → 
+      c.name = (if (allConst (computeJacobian es V)).isSome = true then "constant_jacobian_fn"
+              else if (es.length == 1) = true then
+                (if scaledOf es V = true then "scaled_variable_jacobian_fn" else "jacobian_fn")
+              else "jacobian_fn") := fun _ he => generalBranch_name es V c (he ▸ h)
+  cases es with
+  | nil =>
+    have := other rfl (by rfl)
+    simpa [kindOfList] using this
+  | cons e t =>
+    cases t with
+    | cons e2 t2 =>
+      have := other rfl (by cases e <;> rfl)
+      simpa [kindOfList] using this
+    | nil =>
+      cases e
+      case powSum v kk =>
+        simp only [compileJacobian] at h
+        cases hc : compilePowerGradient v kk V with
+        | error x => simp [hc, Except.map] at h
+        | ok g => simp [hc, Except.map] at h; cases h; simp [kindOfList, kindOf, JacClo.name]
+      case unSum v o =>
+        simp only [compileJacobian] at h
+        cases hc : compileUnaryGradient v o V with
+        | error x => simp [hc, Except.map] at h
+        | ok g => simp [hc, Except.map] at h; cases h; simp [kindOfList, kindOf, JacClo.name]
+      all_goals
+        have := other rfl (by rfl)
+        simpa [kindOfList, kindOf] using this
+
 end Optyx.Props.ClosurePathTie
